@@ -16,18 +16,20 @@ def pseudo_classes():
     return {n: getattr(dt, n) for n in PSEUDO_ORDER}
 
 
+DEFAULT_REPLACES = (("IntString", "FloatString"),)      # what string_serializable.py registers (pinned by Gen/StrReg.v)
+
+
 def make_registry(names=("IntString", "FloatString", "BooleanString")):
-    """A fresh StringSerializableRegistry holding the named classes in that order, with the package's replace pairs."""
+    """A fresh StringSerializableRegistry holding the named classes in that order, with the package's replace pairs.
+    Built without reading the default registry, which other calls of the same process may have mutated."""
     from json_to_models.dynamic_typing import StringSerializableRegistry
-    from json_to_models.dynamic_typing import registry as default_registry
     cl = pseudo_classes()
     reg = StringSerializableRegistry()
-    default_pairs = set(default_registry.replaces)
     for n in names:
         reg.types.append(cl[n])
-    for a, b in default_pairs:
-        if a in reg.types and b in reg.types:
-            reg.replaces.add((a, b))
+    for a, b in DEFAULT_REPLACES:
+        if a in names and b in names:
+            reg.replaces.add((cl[a], cl[b]))
     return reg
 
 
